@@ -520,3 +520,129 @@ Proof.
   exists (trsm_lower_left L (mid n)). destruct (lower_two_sided n L) as (_ & _ & _ & H1 & H2).
   split; [apply trsm_lower_left_id_triangular|]. auto.
 Qed.
+
+(** * 7. the recursive models *)
+Lemma split_bounds n : radix < n -> 0 < split n < n.
+Proof.
+  unfold split, radix. intros H.
+  pose proof (Nat.div_mod (n - 1) 64 ltac:(lia)).
+  pose proof (Nat.mod_upper_bound (n - 1) 64 ltac:(lia)).
+  set (q := (n - 1) / 64) in *.
+  pose proof (Nat.div_mod (q + 1) 2 ltac:(lia)).
+  pose proof (Nat.mod_upper_bound (q + 1) 2 ltac:(lia)).
+  set (q2 := (q + 1) / 2) in *. lia.
+Qed.
+
+Definition solves_ll (L B X : mat) : Prop :=
+  wf X /\ nr X = nr B /\ nc X = nc B /\ mmul (unit_lower (nr B) L) X = B.
+Definition solves_ul (U B X : mat) : Prop :=
+  wf X /\ nr X = nr B /\ nc X = nc B /\ mmul (unit_upper (nr B) U) X = B.
+Definition solves_lr (L B X : mat) : Prop :=
+  wf X /\ nr X = nr B /\ nc X = nc B /\ mmul X (unit_lower (nc B) L) = B.
+Definition solves_ur (U B X : mat) : Prop :=
+  wf X /\ nr X = nr B /\ nc X = nc B /\ mmul X (unit_upper (nc B) U) = B.
+
+Lemma msub_len A r0 c0 r c : r0 + r <= length (rows A) -> length (rows (msub A r0 c0 r c)) = r.
+Proof. intros H. now rewrite (wf_len _ (wf_msub A r0 c0 r c H)). Qed.
+
+Lemma mat_nr0 B : wf B -> nr B = 0 -> B = mk 0 (nc B) [].
+Proof.
+  intros [Hl _] H0. destruct B as [r c l]. cbn in *. subst r.
+  destruct l; [reflexivity|discriminate].
+Qed.
+
+Lemma madd_twice M B1 : wf M -> wf B1 -> nr B1 = nr M -> nc B1 = nc M -> madd M (madd B1 M) = B1.
+Proof.
+  intros HM HB Hr Hc. rewrite madd_comm; auto with wf. now apply madd_cancel.
+Qed.
+
+Lemma mstack_split B n1 n2 : wf B -> nr B = n1 + n2 ->
+  mstack (msub B 0 0 n1 (nc B)) (msub B n1 0 n2 (nc B)) = B.
+Proof.
+  intros HB Hn. pose proof (mstack_msub B 0 0 n1 n2 (nc B)) as E. cbn [Nat.add] in E.
+  rewrite E by (auto; lia). rewrite <- Hn. now apply msub_full.
+Qed.
+
+Lemma mconcat_split B n1 n2 : wf B -> nc B = n1 + n2 ->
+  mconcat (msub B 0 0 (nr B) n1) (msub B 0 n1 (nr B) n2) = B.
+Proof.
+  intros HB Hn. pose proof (mconcat_msub B 0 0 (nr B) n1 n2) as E. cbn [Nat.add] in E.
+  rewrite E by (auto; lia). rewrite <- Hn. now apply msub_full.
+Qed.
+
+(** one level of each recursion, stated on the specifications *)
+Lemma ll_compose L B n1 n2 X0 X1 : wf B -> nr B = n1 + n2 -> n1 + n2 <= length (rows L) ->
+  solves_ll (msub L 0 0 n1 n1) (msub B 0 0 n1 (nc B)) X0 ->
+  solves_ll (msub L n1 n1 n2 n2) (madd (msub B n1 0 n2 (nc B)) (mmul (msub L n1 0 n2 n1) X0)) X1 ->
+  solves_ll L B (mstack X0 X1).
+Proof.
+  intros HB Hn HL (Hw0 & Hr0 & Hc0 & E0) (Hw1 & Hr1 & Hc1 & E1).
+  cbn [nr nc msub madd] in *.
+  assert (WB1 : wf (msub B n1 0 n2 (nc B))) by (apply wf_msub; rewrite wf_len by assumption; lia).
+  assert (W10 : wf (msub L n1 0 n2 n1)) by (apply wf_msub; lia).
+  refine (conj _ (conj _ (conj _ _))).
+  - apply wf_mstack; auto. congruence.
+  - cbn [nr mstack]. lia.
+  - cbn [nc mstack]. assumption.
+  - rewrite Hn, unit_lower_blocks by assumption.
+    rewrite mmul_lower_block; auto with wf; try (apply wf_msub; lia); try congruence.
+    rewrite E0, E1. rewrite madd_twice; auto with wf.
+    now apply mstack_split.
+Qed.
+
+Lemma ul_compose U B n1 n2 X0 X1 : wf B -> nr B = n1 + n2 -> n1 + n2 <= length (rows U) ->
+  solves_ul (msub U n1 n1 n2 n2) (msub B n1 0 n2 (nc B)) X1 ->
+  solves_ul (msub U 0 0 n1 n1) (madd (msub B 0 0 n1 (nc B)) (mmul (msub U 0 n1 n1 n2) X1)) X0 ->
+  solves_ul U B (mstack X0 X1).
+Proof.
+  intros HB Hn HL (Hw1 & Hr1 & Hc1 & E1) (Hw0 & Hr0 & Hc0 & E0).
+  cbn [nr nc msub madd] in *.
+  assert (WB0 : wf (msub B 0 0 n1 (nc B))) by (apply wf_msub; rewrite wf_len by assumption; lia).
+  assert (W01 : wf (msub U 0 n1 n1 n2)) by (apply wf_msub; lia).
+  refine (conj _ (conj _ (conj _ _))).
+  - apply wf_mstack; auto. congruence.
+  - cbn [nr mstack]. lia.
+  - cbn [nc mstack]. assumption.
+  - rewrite Hn, unit_upper_blocks by assumption.
+    rewrite mmul_upper_block; auto with wf; try (apply wf_msub; lia); try congruence.
+    rewrite E0, E1. rewrite madd_cancel; auto with wf.
+    now apply mstack_split.
+Qed.
+
+Lemma ur_compose U B n1 n2 X0 X1 : wf B -> nc B = n1 + n2 -> n1 + n2 <= length (rows U) ->
+  solves_ur (msub U 0 0 n1 n1) (msub B 0 0 (nr B) n1) X0 ->
+  solves_ur (msub U n1 n1 n2 n2) (madd (msub B 0 n1 (nr B) n2) (mmul X0 (msub U 0 n1 n1 n2))) X1 ->
+  solves_ur U B (mconcat X0 X1).
+Proof.
+  intros HB Hn HL (Hw0 & Hr0 & Hc0 & E0) (Hw1 & Hr1 & Hc1 & E1).
+  cbn [nr nc msub madd] in *.
+  assert (WB1 : wf (msub B 0 n1 (nr B) n2)) by (apply wf_msub; rewrite wf_len by assumption; lia).
+  assert (W01 : wf (msub U 0 n1 n1 n2)) by (apply wf_msub; lia).
+  refine (conj _ (conj _ (conj _ _))).
+  - apply wf_mconcat; auto. congruence.
+  - cbn [nr mconcat]. assumption.
+  - cbn [nc mconcat]. lia.
+  - rewrite Hn, unit_upper_blocks by assumption.
+    rewrite mmul_r_upper_block; auto with wf; try (apply wf_msub; lia); try congruence.
+    rewrite E0, E1. rewrite madd_twice; auto with wf.
+    now apply mconcat_split.
+Qed.
+
+Lemma lr_compose L B n1 n2 X0 X1 : wf B -> nc B = n1 + n2 -> n1 + n2 <= length (rows L) ->
+  solves_lr (msub L n1 n1 n2 n2) (msub B 0 n1 (nr B) n2) X1 ->
+  solves_lr (msub L 0 0 n1 n1) (madd (msub B 0 0 (nr B) n1) (mmul X1 (msub L n1 0 n2 n1))) X0 ->
+  solves_lr L B (mconcat X0 X1).
+Proof.
+  intros HB Hn HL (Hw1 & Hr1 & Hc1 & E1) (Hw0 & Hr0 & Hc0 & E0).
+  cbn [nr nc msub madd] in *.
+  assert (WB0 : wf (msub B 0 0 (nr B) n1)) by (apply wf_msub; rewrite wf_len by assumption; lia).
+  assert (W10 : wf (msub L n1 0 n2 n1)) by (apply wf_msub; lia).
+  refine (conj _ (conj _ (conj _ _))).
+  - apply wf_mconcat; auto. congruence.
+  - cbn [nr mconcat]. assumption.
+  - cbn [nc mconcat]. lia.
+  - rewrite Hn, unit_lower_blocks by assumption.
+    rewrite mmul_r_lower_block; auto with wf; try (apply wf_msub; lia); try congruence.
+    rewrite E0, E1. rewrite madd_cancel; auto with wf.
+    now apply mconcat_split.
+Qed.
